@@ -28,6 +28,8 @@ func decompose(t *Term) (*monoChain, bool) {
 		return &monoChain{leaf: t.Args[0], eval: func(x float64) float64 { return x }, intSrc: 1}, true
 	case OpUToF:
 		return &monoChain{leaf: t.Args[0], eval: func(x float64) float64 { return x }, intSrc: 2}, true
+	case OpFAbs:
+		return &monoChain{leaf: t, eval: func(x float64) float64 { return x }}, true
 	case OpFNeg:
 		m, ok := decompose(t.Args[0])
 		if !ok {
@@ -141,10 +143,31 @@ func (c *Ctx) cmpConst(t *Term, op int, k float64) *Term {
 			}
 		}
 		if ph {
-			// true for leaf >= fromKey(hi)
-			return c.node(OpFLe, Bool, 0, 0, "", c.F64C(fromKey(hi)), leaf)
+			// true for leaf >= T
+			T := fromKey(hi)
+			if leaf.Op == OpFAbs {
+				// |z| >= T  <=>  z >= T or z <= -T   (T > 0); always true for T <= 0 (non-NaN)
+				z := leaf.Args[0]
+				if T <= 0 {
+					if NeverNaN(z) {
+						return c.tt
+					}
+					return c.Not(c.FIsNaN(z))
+				}
+				return c.Or(c.FLe(c.F64C(T), z), c.FLe(z, c.F64C(-T)))
+			}
+			return c.node(OpFLe, Bool, 0, 0, "", c.F64C(T), leaf)
 		}
-		return c.node(OpFLe, Bool, 0, 0, "", leaf, c.F64C(fromKey(lo)))
+		T := fromKey(lo)
+		if leaf.Op == OpFAbs {
+			// |z| <= T  <=>  -T <= z <= T
+			z := leaf.Args[0]
+			if T < 0 {
+				return c.ff
+			}
+			return c.And(c.FLe(z, c.F64C(T)), c.FLe(c.F64C(-T), z))
+		}
+		return c.node(OpFLe, Bool, 0, 0, "", leaf, c.F64C(T))
 	case 1:
 		w := m.leaf.Sort.W
 		lo := -(int64(1) << uint(w-1))
